@@ -263,6 +263,105 @@ def run_impl2(cfgd, ops1, ops2):
     return pgm.read_file('c03b.pgm'), raised, float(G.dwell_time)
 
 
+def loop_path(rng):
+    """a closed stroke that ends where it starts (what end() produces): first point shutter-closed, last point = first point"""
+    xs = [j / 8 for j in range(-8, 9)]
+    x0, y0 = rng.choice(xs), rng.choice(xs)
+    f = rng.choice([1.0, 2.0, 5.0])
+    rows = [(x0, y0, 0.0, 5.0, 0), (x0, y0, 0.0, f, 1)]
+    for _ in range(rng.choice([1, 2, 4])):
+        rows.append((rng.choice(xs), rng.choice(xs), 0.0, f, 1))
+    rows.append(rows[-1][:4] + (0,))
+    rows.append((x0, y0, 0.0, 5.0, 0))
+    return [list(map(float, r)) for r in rows]
+
+
+def gen_several_writes(rng, tier):
+    """several paths written into one file, a later one starting where an earlier one ended, with something in between that
+    moves or renames the machine position (G92, a loop, a rotation block, a positioning move) - or nothing"""
+    for _ in range(30 if tier == 'quick' else 300):
+        cfgd = pgm.gen_cfg(rng, allow_bad_laser=False)
+        cfgd['output_digits'] = rng.choice([4, 6, 9])
+        P, Q = loop_path(rng), loop_path(rng)
+        k = rng.randrange(7)
+        if k == 0:
+            ops = [['write', P], ['set_home', [rng.choice([0.5, -1.0, 2.0]), rng.choice([0.25, 0.0]), 0.0]], ['write', P]]
+        elif k == 1:
+            ops = [['write', P], ['repeat', 2, [['write', Q]]], ['write', P]]
+        elif k == 2:
+            ops = [['repeat', rng.choice([2, 3]), [['write', P], ['write', Q]]], ['write', Q]]
+        elif k == 3:
+            ops = [['write', P], ['axis_rotation', rng.choice([10, 370.5]), [['write', P]]]]
+        elif k == 4:
+            ops = [['write', P], ['write', P], ['write', Q], ['write', Q]]
+        elif k == 5:
+            ops = [['write', P], ['move_to', [rng.choice([0.5, -1.0]), 0.25, 0.0], None], ['write', P]]
+        else:
+            ops = [['dvar', ['i']], ['for', 'i', 2, [['write', P], ['set_home', [0.0, 0.0, 0.0]]]], ['write', P]]
+        yield 'several-writes-in-one-file', cfgd, ops
+
+
+def several_writes(rep, prop, tier, seed):
+    """the several-writes stream on its own, for C01: every path written into a file is replayed from where the machine is"""
+    rng = common.rng_for(seed, prop, 'several-writes')
+    cases, lits = [], []
+    for stream, cfgd, ops in gen_several_writes(rng, tier):
+        text, raised, dwell = run_impl(cfgd, ops)
+        cases.append({'stream': stream, 'cfg': cfgd, 'ops': ops})
+        lits.append(case_literal(cfgd, ops, text, raised, dwell))
+    fails = common.run_model(prop, 'Harness.C03', 'C03.case', 'C03.failing', lits, shard=40, extra_imports=IMPORTS, tag='writes')
+    for idx, code in fails:
+        which = [NAMES[k] for k in range(len(NAMES)) if code >> k & 1]
+        c = cases[idx]
+        mine = [w for w in which if w in ('exposure', 'shutter-left-open', 'controller-error', 'parse')]
+        if mine:
+            rep.violation(f'{prop}/replay/several-writes-in-one-file', 'a path written after another one is not replayed point for point: '
+                          + '+'.join(mine), {'input': c, 'failed': which, 'replay_with': 'C03'})
+        else:
+            rep.violation(f'{prop}/correspondence/' + '+'.join(which) + '/several-writes-in-one-file', 'model and femto disagree on ' + '+'.join(which),
+                          {'input': c, 'failed': which, 'correspondence': 'Harness.C03.check (session token stream)'}, no_input=True)
+    return len(cases)
+
+
+def run_impl3(cfgd, pre, ops):
+    """operations on a new compiler object before its `with` block, then the session"""
+    fn = 'c03c.pgm'
+    if os.path.exists(fn):
+        os.remove(fn)
+    raised = 0
+    with pgm.quiet():
+        G = pgm.make_compiler(cfgd, fn)
+        interp(G, pre)
+        try:
+            with G:
+                interp(G, ops)
+        except (ValueError, FileNotFoundError, pgm.UserBoom, pgm.UserAbort) as e:
+            raised = pgm.EXC_KIND[type(e).__name__]
+    return pgm.read_file(fn), raised, float(G.dwell_time)
+
+
+def gen_pre(rng, tier):
+    """declarations / loads / pauses given before the `with` block, used inside it"""
+    for _ in range(40 if tier == 'quick' else 500):
+        cfgd = pgm.gen_cfg(rng, allow_bad_laser=False)
+        v = rng.choice(VARS)
+        f = rng.choice(['a.pgm', 'B.pgm', 'sub/a.pgm'])
+        pre, ops = [], []
+        if rng.random() < 0.6:
+            pre.append(['dvar', [v]])
+            ops.append(['for', v, rng.choice([1, 2, 3]), [['dwell', rng.choice(pgm.PAUSES)]] + ([['write', closed_path(rng)]] if rng.random() < 0.4 else [])])
+        if rng.random() < 0.5:
+            pre.append(['load', f, 2])
+            ops += [[rng.choice(['farcall', 'farcall', 'buffered']), pathlib.PurePosixPath(f).name] if rng.random() < 0.8 else ['dwell', 0.5], ['remove', f, 2]]
+            if ops[-2][0] == 'buffered':
+                ops[-2] = ['buffered', pathlib.PurePosixPath(f).name, 2]
+        if rng.random() < 0.5 or not pre:
+            pre.insert(rng.randint(0, len(pre)), ['dwell', rng.choice([0.5, 2.0, 0.125])])
+        if rng.random() < 0.3:
+            ops += gen_ops(rng, depth=1, budget=[3])
+        yield cfgd, pre, ops
+
+
 def gen_reuse(rng, tier):
     for _ in range(40 if tier == 'quick' else 500):
         cfgd = pgm.gen_cfg(rng, allow_bad_laser=False)
@@ -416,6 +515,17 @@ def gen_cases(rng, tier):
         else:
             ops = [['axis_rotation', 12.5, [['write', closed_path(rng)], ['repeat', 2, [['write', closed_path(rng)]]]]]]
         yield 'directed', cfgd, ops
+    yield from gen_several_writes(rng, tier)
+    # directed: a pause after an inner loop has closed, still inside the outer one (2 or 3 levels, FOR and REPEAT mixed)
+    for _ in range(24 if quick else 240):
+        cfgd = pgm.gen_cfg(rng, allow_bad_laser=False)
+        p = lambda: ['dwell', rng.choice([0.25, 0.5, 1.5, -0.75])]
+        lp = lambda n, body: (['for', 'i', n, body] if rng.random() < 0.5 else ['repeat', n, body])
+        inner = lp(rng.choice([2, 3]), [p()])
+        if rng.random() < 0.5:
+            inner = lp(rng.choice([2, 3]), [inner, p()] if rng.random() < 0.6 else [p(), inner])
+        body = [inner, p()] if rng.random() < 0.7 else [p(), inner, p()]
+        yield 'directed-nested-dwell', cfgd, [['dvar', ['i']], lp(rng.choice([2, 3, 4]), body), p()]
 
 
 def run_for(prop: str, rep: common.Report, tier: str, seed: int):
@@ -455,9 +565,21 @@ def run_for(prop: str, rep: common.Report, tier: str, seed: int):
         cases.append({'stream': 'second-file-of-one-compiler', 'cfg': cfgd, 'ops': ops2, 'first_session': ops1})
         lits2.append('{| k2_first := %s; k2 := %s |}' % (first, case_literal(cfgd, ops2, text, raised, dwell, it)))
         hist['streams']['second-file-of-one-compiler'] = hist['streams'].get('second-file-of-one-compiler', 0) + 1
+    # operations given before the `with` block
+    n_two = len(cases)
+    lits3 = []
+    rng3 = common.rng_for(seed, 'C03', 'pre')
+    for cfgd, pre_ops, ops in gen_pre(rng3, tier):
+        text, raised, dwell = run_impl3(cfgd, pre_ops, ops)
+        it = lexer.Interner()
+        pre_l = ops_lit(pre_ops, it)
+        cases.append({'stream': 'operations-before-the-with-block', 'cfg': cfgd, 'ops': ops, 'before_with': pre_ops})
+        lits3.append('{| k3_pre := %s; k3 := %s |}' % (pre_l, case_literal(cfgd, ops, text, raised, dwell, it)))
+        hist['streams']['operations-before-the-with-block'] = hist['streams'].get('operations-before-the-with-block', 0) + 1
+    fails3 = common.run_model(prop, 'Harness.C03', 'C03.case3', 'C03.failing3', lits3, shard=40, extra_imports=IMPORTS, tag='pre')
     fails = common.run_model(prop, 'Harness.C03', 'C03.case', 'C03.failing', lits, shard=40, extra_imports=IMPORTS)
     fails2 = common.run_model(prop, 'Harness.C03', 'C03.case2', 'C03.failing2', lits2, shard=40, extra_imports=IMPORTS, tag='reuse')
-    fails = list(fails) + [(n_single + i, code) for i, code in fails2]
+    fails = list(fails) + [(n_single + i, code) for i, code in fails2] + [(n_two + i, code) for i, code in fails3]
     for idx, code in fails:
         which = [NAMES[k] for k in range(len(NAMES)) if code >> k & 1]
         c = cases[idx]
@@ -548,6 +670,14 @@ def replay(data, prop='C03'):
         first = ops_lit(c['first_session'], it)
         lit = '{| k2_first := %s; k2 := %s |}' % (first, case_literal(c['cfg'], c['ops'], text, raised, dwell, it))
         fails = common.run_model(prop, 'Harness.C03', 'C03.case2', 'C03.failing2', [lit], tag='replay', extra_imports=IMPORTS)
+        print('replay:', 'FAILS' if fails else 'passes', fails)
+        return 1 if fails else 0
+    if 'before_with' in c:
+        text, raised, dwell = run_impl3(c['cfg'], c['before_with'], c['ops'])
+        it = lexer.Interner()
+        pre_l = ops_lit(c['before_with'], it)
+        lit = '{| k3_pre := %s; k3 := %s |}' % (pre_l, case_literal(c['cfg'], c['ops'], text, raised, dwell, it))
+        fails = common.run_model(prop, 'Harness.C03', 'C03.case3', 'C03.failing3', [lit], tag='replay', extra_imports=IMPORTS)
         print('replay:', 'FAILS' if fails else 'passes', fails)
         return 1 if fails else 0
     text, raised, dwell = run_impl(c['cfg'], c['ops'])
